@@ -106,6 +106,8 @@ EXT_XML = {
                  '</physics_scene></library_physics_scenes>' % NS,
     'force': '<library_force_fields xmlns="%s"><force_field id="ff%%d"><technique profile="Z"><wind strength="3"/>'
              '</technique></force_field></library_force_fields>' % NS,
+    'extrafx': '<extra xmlns="%s" id="exf%%d"><technique profile="EXPORTER"><exp:settings xmlns:exp="urn:example:exporter" '
+               'exp:mode="fast" plain="1">1<exp:sub/></exp:settings><o:more xmlns:o="http://example.org/ext/1.0"/></technique></extra>' % NS,
     'extra': '<extra xmlns="%s" id="ex%%d" type="t"><technique profile="MAX3D"><frame_rate>30</frame_rate>'
              '<q xmlns="urn:other" k="v">text <b/>tail text</q></technique>'
              '<technique profile="Y"><param name="p%%d" type="float">  1.5  </param></technique></extra>' % NS,
@@ -252,11 +254,63 @@ def apply_edits(doc, edits):
                 del doc.cameras[0]
         elif e == 'no_default_scene':
             doc.scene = None
+        elif e == 'drop_scene_element':
+            # a document whose tree has no <scene> (save() creates one, in front of the root's <extra>)
+            root = doc.xmlnode.getroot()
+            for c in root.findall(T('scene')):
+                root.remove(c)
         else:
             raise ValueError(e)
 
 
 TMP = None
+
+
+def xml_text(spec):
+    """a raw document: COLLADA elements in the default namespace or under a root prefix, foreign-namespace
+    elements and attributes inside a top-level <extra> (and inside a node's <extra>) under chosen prefixes"""
+    c = spec.get('rootprefix') or ''
+    cp = c + ':' if c else ''
+    decl = ['xmlns%s="%s"' % (':' + c if c else '', NS)]
+    body = []
+    for k, (pfx, uri) in enumerate(spec.get('foreign', [])):
+        if pfx:
+            decl.append('xmlns:%s="%s"' % (pfx, uri))
+            body.append('<%s:settings %s:mode="fast" plain="%d">%s<%s:sub/></%s:settings>' % (pfx, pfx, k, spec.get('value', 'v'), pfx, pfx))
+        else:
+            body.append('<settings xmlns="%s" plain="%d">%s</settings>' % (uri, k, spec.get('value', 'v')))
+    t = ('<?xml version="1.0" encoding="utf-8"?>\n<{c}COLLADA {decl} version="1.4.1">'
+         '<{c}asset><{c}created>2020-01-02T03:04:05</{c}created><{c}modified>2020-01-02T03:04:05</{c}modified>'
+         '<{c}up_axis>Y_UP</{c}up_axis></{c}asset>'
+         '<{c}library_visual_scenes><{c}visual_scene id="vs"><{c}node id="n" name="n">'
+         '<{c}extra><{c}technique profile="NODEX">{body}</{c}technique></{c}extra></{c}node></{c}visual_scene>'
+         '</{c}library_visual_scenes><{c}scene><{c}instance_visual_scene url="#vs"/></{c}scene>'
+         '<{c}extra><{c}technique profile="EXPORTER">{body}</{c}technique></{c}extra></{c}COLLADA>')
+    return t.format(c=cp, decl=' '.join(decl), body=''.join(body)).encode('utf-8')
+
+
+def nsmap_hash():
+    return hashlib.sha1(repr(sorted(ET._namespace_map.items())).encode()).hexdigest()[:12]
+
+
+def other_step(att, fail):
+    """work on OTHER documents in the same process between two attempts on the document under test:
+    load them, write them (twice: their repeated writes must agree too), save them"""
+    import collada
+    for o in att.get('docs', []):
+        try:
+            d = build(o)
+            if 'write' in att.get('acts', []):
+                b1 = healthy_bytes(d)
+                b2 = healthy_bytes(d)
+                if b1 != b2:
+                    fail('repeat-bytes', 'write:other-document', 'repeated writes of an unedited (other) document differ')
+            if 'save' in att.get('acts', []):
+                d.save()
+        except collada.DaeError:
+            pass
+        except Exception:  # noqa  (e.g. a document save() rejects: another property's concern)
+            pass
 
 
 def texture_bytes(i):
@@ -310,6 +364,10 @@ def build(spec):
             doc = collada.Collada(dae, aux_file_loader=lambda name: table.get(name))
         else:
             doc = collada.Collada(open(dae, 'rb'))
+        apply_edits(doc, spec.get('edits', []))
+        return doc
+    if spec['kind'] == 'xml':
+        doc = collada.Collada(io.BytesIO(xml_text(spec)))
         apply_edits(doc, spec.get('edits', []))
         return doc
     if spec['kind'] == 'file':
@@ -603,6 +661,10 @@ def run_doc(spec, tmpdir):
         fail('model-changed', 'write', 'write() changed the in-memory model')
     ref_tree1 = [chash(c) for c in ref.xmlnode.getroot()]
     q = query(ref)
+    for att in spec.get('history', []):
+        if att['op'] == 'other':
+            other_step(dict(att, acts=['load']), fail)      # loads of other documents between two writes
+            break
     B2 = healthy_bytes(ref)
     query(ref)
     ref.save()
@@ -677,7 +739,11 @@ def run_doc(spec, tmpdir):
     # ---- the history
     events = []
     nfail = 0
+    ns0 = nsmap_hash()
     for ai, att in enumerate(spec.get('history', [])):
+        if att['op'] == 'other':
+            other_step(att, fail)
+            continue
         undo, bad, sc = apply_fault(doc, att.get('fault'))
         s_before = snapshot(doc)
         dest = att.get('dest')
@@ -738,7 +804,9 @@ def run_doc(spec, tmpdir):
                 fail('sink', 'write:sink', 'a sink accepting %d < %d bytes did not make write() fail' % (dest[1], len(B)), attempt=ai)
         if sink is not None and dest[1] is None and code == 0 and not att.get('fault'):
             if sink.getvalue() != B:
-                fail('later-write', 'write:healthy', 'a healthy write after %d failed attempts differs from the never-failed output' % nfail, attempt=ai)
+                fail('later-write', 'write:healthy', 'a healthy write after %d failed attempts and the work on other documents so far '
+                     'differs from the first write of an untouched twin' % nfail, attempt=ai,
+                     process_namespace_table_changed=(nsmap_hash() != ns0))
         skel = ob.skeleton(doc)
         for u in undo:
             u()
@@ -758,7 +826,7 @@ def run_doc(spec, tmpdir):
         Bf = healthy_bytes(doc)
         if Bf != B:
             fail('later-write', 'write:final', 'after %d failed attempts a healthy write differs from the never-failed output '
-                 '(lengths %d vs %d)' % (nfail, len(Bf), len(B)))
+                 '(lengths %d vs %d)' % (nfail, len(Bf), len(B)), process_namespace_table_changed=(nsmap_hash() != ns0))
     except Exception as e:  # noqa
         fail('later-write', 'write:final:' + type(e).__name__, 'after %d failed attempts a healthy write raises %r' % (nfail, e))
     if snapshot(doc) != snap0:
